@@ -1,0 +1,196 @@
+//go:build verif
+
+package peersync
+
+// Verification hooks for property C28 (peer-sync keeps an accurate,
+// persistent view of peers). Add-only; compiled only with -tags verif.
+
+import (
+	"context"
+	"encoding/json"
+	"time"
+
+	bolt "go.etcd.io/bbolt"
+)
+
+// VerifC28Consts reports the constants a freshly wired PeerSync runs with.
+func VerifC28Consts(ps *PeerSync) map[string]int64 {
+	return map[string]int64{
+		"poll_interval":           int64(ps.logic.pollInterval),
+		"poll_ticker_interval":    int64(ps.pollTickerInterval),
+		"cleanup_ticker_interval": int64(ps.cleanupTickerInterval),
+		"cleanup_timeout":         int64(ps.cleanupTimeout),
+		"request_poll_interval":   int64(ps.requestPollInterval),
+		"poller_timeout":          int64(ps.poller.timeout),
+		"poller_request_interval": int64(ps.poller.requestInterval),
+		"local_version":           int64(ps.version.Value()),
+		"max_peer_id_len":         128,
+	}
+}
+
+// VerifC28StatusStrings returns the lifecycle status strings.
+func VerifC28StatusStrings() (active, inactive, unknown, expired string) {
+	return string(StatusActive), string(StatusInactive), string(StatusUnknown), string(StatusExpired)
+}
+
+// VerifC28ProcessMessage feeds one inbound custom message to the real handler.
+func VerifC28ProcessMessage(ctx context.Context, ps *PeerSync, msg CustomMessage) {
+	ps.handler.processMessage(ctx, msg)
+}
+
+// VerifC28Cleanup runs one sweep of the poller's cleanup loop body.
+func VerifC28Cleanup(ctx context.Context, ps *PeerSync) error {
+	return ps.poller.cleanupExpired(ctx)
+}
+
+// VerifC28NoSync disables fsync on the store's database (speed only).
+func VerifC28NoSync(s *Store) { s.db.NoSync = true }
+
+// VerifC28Rec is the raw persisted record of one peer, with timestamps
+// expressed as ages relative to the wall clock at the time of the dump
+// (HasX=false for the zero time).
+type VerifC28Rec struct {
+	Key         string
+	ID          string
+	Address     string
+	Status      string
+	HasLastPoll bool
+	LastPollAge time.Duration
+	HasLastSeen bool
+	LastSeenAge time.Duration
+	Version     uint64
+	Assets      []string
+	PeerAllowed bool
+	BTCIn       int64
+	BTCOut      int64
+	LBTCIn      int64
+	LBTCOut     int64
+	BadJSON     bool
+}
+
+// VerifC28Dump lists the raw stored records in key order.
+func VerifC28Dump(s *Store) ([]VerifC28Rec, error) {
+	var out []VerifC28Rec
+	err := s.db.View(func(tx *bolt.Tx) error {
+		bucket := tx.Bucket(pollBucketName)
+		if bucket == nil {
+			return nil
+		}
+		now := time.Now()
+		return bucket.ForEach(func(k, v []byte) error {
+			var r peerRecord
+			rec := VerifC28Rec{Key: string(k)}
+			if err := json.Unmarshal(v, &r); err != nil {
+				rec.BadJSON = true
+				out = append(out, rec)
+				return nil
+			}
+			rec.ID = r.ID
+			rec.Address = r.Address
+			rec.Status = string(r.Status)
+			if !r.LastPollAt.IsZero() {
+				rec.HasLastPoll = true
+				rec.LastPollAge = now.Sub(r.LastPollAt)
+			}
+			if !r.LastSeen.IsZero() {
+				rec.HasLastSeen = true
+				rec.LastSeenAge = now.Sub(r.LastSeen)
+			}
+			rec.Version = r.Version
+			rec.Assets = append([]string(nil), r.Assets...)
+			rec.PeerAllowed = r.PeerAllowed
+			rec.BTCIn = r.BTCSwapInPremiumRatePPM
+			rec.BTCOut = r.BTCSwapOutPremiumRatePPM
+			rec.LBTCIn = r.LBTCSwapInPremiumRatePPM
+			rec.LBTCOut = r.LBTCSwapOutPremiumRatePPM
+			out = append(out, rec)
+			return nil
+		})
+	})
+	return out, err
+}
+
+// VerifC28PutRaw writes a record (ages are turned into timestamps relative
+// to the wall clock) under the given key, bypassing Peer validation.
+func VerifC28PutRaw(s *Store, rec VerifC28Rec) error {
+	now := time.Now()
+	r := peerRecord{
+		ID:                        rec.ID,
+		Address:                   rec.Address,
+		Status:                    PeerStatus(rec.Status),
+		Version:                   rec.Version,
+		Assets:                    rec.Assets,
+		PeerAllowed:               rec.PeerAllowed,
+		BTCSwapInPremiumRatePPM:   rec.BTCIn,
+		BTCSwapOutPremiumRatePPM:  rec.BTCOut,
+		LBTCSwapInPremiumRatePPM:  rec.LBTCIn,
+		LBTCSwapOutPremiumRatePPM: rec.LBTCOut,
+	}
+	if rec.HasLastPoll {
+		r.LastPollAt = now.Add(-rec.LastPollAge)
+	}
+	if rec.HasLastSeen {
+		r.LastSeen = now.Add(-rec.LastSeenAge)
+	}
+	data, err := json.Marshal(&r)
+	if err != nil {
+		return err
+	}
+	return s.db.Update(func(tx *bolt.Tx) error {
+		bucket := tx.Bucket(pollBucketName)
+		if bucket == nil {
+			return errPollBucketMissing
+		}
+		return bucket.Put([]byte(rec.Key), data)
+	})
+}
+
+// VerifC28Age makes every stored timestamp and every remembered request time
+// d older: the equivalent of advancing the clock by d without sleeping.
+func VerifC28Age(ps *PeerSync, d time.Duration) error {
+	err := ps.store.db.Update(func(tx *bolt.Tx) error {
+		bucket := tx.Bucket(pollBucketName)
+		if bucket == nil {
+			return nil
+		}
+		type kv struct{ k, v []byte }
+		var updates []kv
+		if err := bucket.ForEach(func(k, v []byte) error {
+			var r peerRecord
+			if err := json.Unmarshal(v, &r); err != nil {
+				return nil
+			}
+			if !r.LastPollAt.IsZero() {
+				r.LastPollAt = r.LastPollAt.Add(-d)
+			}
+			if !r.LastSeen.IsZero() {
+				r.LastSeen = r.LastSeen.Add(-d)
+			}
+			data, err := json.Marshal(&r)
+			if err != nil {
+				return err
+			}
+			updates = append(updates, kv{append([]byte(nil), k...), data})
+			return nil
+		}); err != nil {
+			return err
+		}
+		for _, u := range updates {
+			if err := bucket.Put(u.k, u.v); err != nil {
+				return err
+			}
+		}
+		return nil
+	})
+	if err != nil {
+		return err
+	}
+	if ps.poller != nil {
+		ps.poller.mu.Lock()
+		for id, t := range ps.poller.lastRequestedAt {
+			ps.poller.lastRequestedAt[id] = t.Add(-d)
+		}
+		ps.poller.mu.Unlock()
+	}
+	return nil
+}
